@@ -48,7 +48,7 @@ MBIT = 8.0 / (1024.0 * 1024.0)
 UNITS = ["arp_a", "arp_x", "icmp_a", "icmp_x"]
 FILE_SIZES = [800, 20_000, 400_000, 6_000_000]
 DEFAULT_CAP = {"WIFI_2_4": 100_000_000.0, "WIFI_5": 500_000_000.0}
-FREQ_HZ = {"WIFI_2_4": 2.4e9, "WIFI_5": 5e9}
+FREQ_HZ = {"WIFI_2_4": 2_400_000_000, "WIFI_5": 5_000_000_000}
 
 Z = {"start_up_duration": 0, "shut_down_duration": 0}
 
